@@ -81,6 +81,8 @@ SAFE = {
 }
 
 SAFE_PATTERNS = [
+    re.compile(r"core::slice::iter::<impl core::iter::IntoIterator for &(mut )?\[T\]>::into_iter"),   # = slice.iter(): pure
+
     re.compile(r"core::num::<impl [iu](8|16|32|64|128|size)>::wrapping_(add|sub|neg|mul|shl|shr)"),
     re.compile(r"core::num::<impl [iu](8|16|32|64|128|size)>::(saturating|checked|overflowing)_(add|sub|mul|neg)"),
     re.compile(r"core::num::<impl [iu](8|16|32|64|128|size)>::(count_ones|count_zeros|leading_zeros|trailing_zeros|min|max)"),
